@@ -10,6 +10,13 @@ PROP = "C19"
 ALPHA = ["a", " ", "'", '"', "$", "(", ")", "{", "|", "\\", "é", "\n", "<", ";", "🚀", "#", "`", "&"]
 
 
+BQ_INNER = ["a", "\\`", "\\\\", "\\$", "é", " ", "$(", ")", '"', "'", "爸"]
+HD_PRE = ["cat ", '"q" cat ', "x=1 cat ", "if cat ", "( cat ", "$(cat ", "a | cat "]
+HD_TAG = ["<<E", "<<'E'", "<<-E", '<<"E"', "<<E <<F\nf\nF"]
+HD_TAIL = ["", ' >"$o"', ' | grep "b"', " | tee $(echo f)", " `x`", " 'q'", ' $"s"', " a", " >f", " 2>&1", ' && "x" y', "; echo ${x:-\"d\"}", " é \"é\"", " \\\n \"c\"", " #c \"d\"", ") \"p\""]
+HD_BODY = ["", "b\n", "é $x\n", '"q\n', "$(\n", "\tE\n"]
+
+
 def lines_exhaustive(n, alpha):
     for k in range(0, n + 1):
         for t in itertools.product(alpha, repeat=k):
@@ -29,7 +36,7 @@ def run_linedrv(mode, lines, timeout=900):
             d = tempfile.mkdtemp(prefix="ld-", dir=scratch())
             env = dict(BASE_ENV, HOME=d, TMPDIR=d, PATH="/usr/bin:/bin")
             try:
-                p = subprocess.run([bin_path("linedrv"), mode], input=inp.encode(), stdout=subprocess.PIPE, stderr=subprocess.PIPE, env=env, cwd=d, timeout=timeout)
+                p = subprocess.run([bin_path("linedrv"), mode], input=inp.encode(), stdout=subprocess.PIPE, stderr=subprocess.PIPE, env=env, cwd=d, timeout=timeout, preexec_fn=limit_memory)
                 out, rc, to = p.stdout.decode("utf-8", "replace"), p.returncode, False
             except subprocess.TimeoutExpired as ex:
                 out, rc, to = (ex.stdout or b"").decode("utf-8", "replace"), None, True
@@ -92,6 +99,20 @@ def run(tier):
     for _ in range(3000 if tier == "quick" else 40000):
         k = rnd.randint(2, 7)
         lines.append("".join(rnd.choice(FRAGMENTS) for _ in range(k)))
+    # here-documents: the tokenizer reports the body before the rest of the tag's line, so what follows the tag on
+    # that line (quoted words, substitutions, a second document) is highlighted after text that lies behind it
+    for pre in HD_PRE:
+        for tag in HD_TAG:
+            for tail in HD_TAIL:
+                for body in HD_BODY:
+                    for post in ("", 'echo "z"\n', "x"):
+                        lines.append(pre + tag + tail + "\n" + body + "E\n" + post)
+                        if tier != "quick" or rnd.random() < 0.15:
+                            lines.append(pre + tag + tail + "\n" + body)            # unterminated
+    # backquoted substitutions whose text contains escapes (the parser un-escapes them: offsets inside no longer map 1:1)
+    for inner in itertools.product(BQ_INNER, repeat=3):
+        for tail in ("", " x", "é"):
+            lines.append("echo `" + "".join(inner) + "`" + tail)
     lines = sorted(set(lines))
     idx = list(enumerate(lines))
     recs, problems = run_linedrv("hl", idx)
